@@ -140,13 +140,22 @@ def replay_proto(ctx, exe, prefix, names):
         if name in ("Post", "TakeOwn"):
             return st[src]["apend"][args[0] - 1] == "idle"
         return True
-    walks = behaviours.cover_walks_dag(g, edge_filter=feasible)
+    # one walk = one scenario between two quiescent points; kills of half-done CREATE calls leave the validator alternatives that only
+    # later events resolve, so long scenarios are cut (the remaining edges get scenarios of their own)
+    walks = behaviours.cover_walks_dag(g, edge_filter=feasible, max_len=50)
     if ctx.quick:
         # sample, but keep the rare interleavings: every walk in which a CREATE-mode open removes the name (Unlink) is kept first
         ctx.rng.shuffle(walks)
         rare = [w for w in walks if any(lab.startswith("Unlink") for lab, _ in w)]
         rest = [w for w in walks if not any(lab.startswith("Unlink") for lab, _ in w)]
-        walks = rare[:250] + rest[:150]
+        # a step budget keeps the quick tier bounded whatever edge order TLC dumped (a walk prefix is a behaviour too)
+        picked, budget = [], 20000
+        for w in rare[:250] + rest[:150]:
+            if budget - len(w) < 0:
+                break
+            budget -= len(w)
+            picked.append(w)
+        walks = picked
     lines, expect = [], []     # expect: per emitted 'ret'/'obs' checkpoint
     for w in walks:
         src = g.init
@@ -217,6 +226,12 @@ def replay_proto(ctx, exe, prefix, names):
                 if len(ctx.drift) < 5:
                     ctx.drift.append({"replay_step": j, "name_exists_observed": ex, "model": expect[j]["exists"]})
             j += 1
+    # tell the validator which name the observed key is (one name in this replay): obs events then pin the abstract name space
+    if key:
+        for e in evs:
+            if e["e"] == "obs":
+                e["ex"] = [[1, dict((k, v) for k, v in e["sem"]).get(key, 0)]]
+        traces.write(evs, tp)
     ctx.extra["proto_replay"] = {"graph_states": len(g.labels), "graph_edges": g.nedges, "walks": len(walks), "steps": len(expect), "kernel_name_mismatches": bad, "syscall_gate_mismatches": gbad,
                                  "stuck_events": sum(1 for e in evs if e["e"] == "Stuck")}
     ctx.behaviours += len(walks)
